@@ -181,6 +181,10 @@ func decodeTimeout(s string) (time.Duration, error) {
 	if d == 0 {
 		return 0, fmt.Errorf("transport: timeout unit is not recognized: %q", s)
 	}
+	if c := s[0]; c < '0' || c > '9' {
+		// ParseInt accepts a sign, the spec does not: positive integer, ASCII digits.
+		return 0, fmt.Errorf("transport: timeout value is not a positive integer: %q", s)
+	}
 	t, err := strconv.ParseInt(s[:size-1], 10, 64)
 	if err != nil {
 		return 0, err
